@@ -242,6 +242,52 @@ def history(mon: Mon, config: dict, N: int):
         ctx.sample({"configuration": name, "N": bags["iv"].n, "distinct_iv": len(bags["iv"].seen), "last_token": o.value if isinstance(o.value, str) else "(json)"})
 
 
+def reencrypt_history(mon: Mon, N: int):
+    """sequences in which the object handed to encrypt_json is not fresh: the object returned by decrypt_json (a gateway re-encrypting what it
+    received) and one object encrypted several times.  Header objects are then not fresh either (the statement leaves epk / p2s of such calls
+    alone), but IV and CEK are not header values: they must be new for every encryption."""
+    ctx = mon.ctx
+    j = J.load()
+    for alg, enc in (("dir", "A128GCM"), ("A128KW", "A128CBC-HS256"), ("A256GCMKW", "A256GCM"), ("ECDH-ES+A128KW", "A192GCM"), ("RSA-OAEP", "A256CBC-HS512"), ("A128KW", "C20P")):
+        for form in ("flattened", "general"):
+            name = f"re-encrypt:{form}:{alg}:{enc}"
+            rk, _ = g.keys_for(alg, enc, "P-256")
+            priv, ref = j.key(rk), RefKey.from_jwk(rk)
+            allow = [alg, enc]
+            cek_len, iv_len = rjwe.ENC[enc]
+            bags = {"iv": Bag(ctx, name, "iv", iv_len, bits=False)}
+            if alg != "dir":
+                bags["cek"] = Bag(ctx, name, "cek", cek_len, bits=False)
+            cls = j.jwe.FlattenedJSONEncryption if form == "flattened" else j.jwe.GeneralJSONEncryption
+            obj = cls({"enc": enc}, b"the same plaintext every time")
+            obj.add_recipient({"alg": alg}, priv)
+            ctx.cell("history", "re-encrypt", alg, enc)
+            for idx in range(N):
+                ctx.ev()
+                o = call(j.jwe.encrypt_json, obj, None, algorithms=allow)
+                if not o.ok:
+                    ctx.note(f"{name}: encrypt_json of a used object failed at #{idx}: {o.exc!r} (round trip is C04's subject)")
+                    break
+                ctx.count("encryptions")
+                ctx.count("reencryptions")
+                prot, rl, iv = token_parts(o.value)
+                bags["iv"].add(iv, idx)
+                if "cek" in bags and (not alg.startswith("RSA") or idx % 10 == 0):
+                    try:
+                        h, ek = rl[0]
+                        bags["cek"].add(rjwe.recover_cek(alg, enc, h, ek, ref, None, b64u_dec_lenient(o.value["tag"])), idx)
+                    except rjwe.Reject:
+                        ctx.count("reencrypt_cek_not_recoverable")   # e.g. a stale epk next to the new one; C04 judges decryptability
+                # next round: either the same object again, or the object a decrypt returns
+                if idx % 2 == 0:
+                    d = call(j.jwe.decrypt_json, copy.deepcopy(o.value), priv, algorithms=allow)
+                    if d.ok:
+                        obj = d.value
+            for b in bags.values():
+                b.finish()
+            ctx.count("histories")
+
+
 def keygen_history(ctx, kind, N):
     j = J.load()
     kty, arg = kind.split(":")
@@ -396,6 +442,8 @@ def run_shard(ctx):
             keygen_history(ctx, kind, 200)
         if ctx.shard % 4 == 0:
             forked_processes(ctx, mon)
+        if ctx.shard % 4 == 1:
+            reencrypt_history(mon, 40 if ctx.tier == "quick" else 400)
         cs = configs(ctx.tier)
         for idx, c in enumerate(cs):
             if idx % ctx.nshards != ctx.shard:
